@@ -144,6 +144,8 @@ func (w *world) build(name string) slip.Object {
 		return slip.DoubleFloat(math.Inf(1))
 	case "el":
 		return slip.List{}
+	case "esym":
+		return slip.Symbol("")
 	case "sym":
 		return slip.Symbol(fmt.Sprintf("c09s%d", atomic.AddInt64(&nameCounter, 1)))
 	case "fsym":
